@@ -954,6 +954,15 @@ class DirectorHandler:
                     file = self.workflow.find(File, path)
                     if file.get_state() not in (FileState.CONFIRMED, FileState.BUILT):
                         unavailable.add(path)
+        # The step may read the amended inputs from here on.
+        # What they look like now is what the check after the command has to compare with.
+        async with self.db:
+            inp_hashes = {
+                record.path: record.hash
+                for record in step.inp_paths()
+                if record.state in (FileState.BUILT, FileState.CONFIRMED)
+            }
+        self.executor.note_input_hashes(job_i, inp_hashes)
         carry_on = len(unavailable) == 0 and len(unfresh) == 0
         if not carry_on:
             self.executor.defer(job_i, unavailable=unavailable, unfresh=unfresh)
